@@ -89,6 +89,7 @@ KeyPool(nm) ==
     [] nm = "K4"  -> [kid |-> "k4", cid |-> 8, suites |-> {"s1","s2","s3"}, pub |-> "pub",  cfg |-> "c4", dec |-> TRUE]
     [] nm = "K5"  -> [kid |-> "k5", cid |-> 7, suites |-> {"s2"},           pub |-> "pub",  cfg |-> "c5", dec |-> TRUE]
     [] nm = "K6"  -> [kid |-> "k6", cid |-> 7, suites |-> {"s1","s2","s3"}, pub |-> "pub",  cfg |-> "c6", dec |-> TRUE]
+    [] nm = "K7"  -> [kid |-> "k7", cid |-> 9, suites |-> {"s1","s4"},      pub |-> "pub",  cfg |-> "c7", dec |-> TRUE]   \* its config also lists s4, a suite whose KDF the server cannot run
     [] nm = "KX"  -> [kid |-> "kx", cid |-> 7, suites |-> {"s1","s2","s3"}, pub |-> "pub",  cfg |-> "cx", dec |-> FALSE]  \* a held entry whose config bytes do not decode (unknown version): ignored
     [] nm = "K1b" -> [kid |-> "k1", cid |-> 7, suites |-> {"s1","s2","s3"}, pub |-> "pub",  cfg |-> "c1b", dec |-> TRUE]  \* same key material, other config bytes
 
@@ -98,6 +99,7 @@ Aad(h) == [h EXCEPT !.ech.ct = ZeroCt]
 OpenOK(k, h) ==
   LET e == h.ech IN
   /\ e.type = "outer" /\ e.ct.ok
+  /\ e.suite \in Suites                   \* a suite the server's HPKE implements (s4 = HKDF-SHA384 is listed by K7's config but not implemented: the key is skipped)
   /\ e.enc.to = k.kid                      \* decapsulation with the right private key
   /\ e.ct.kid = k.kid /\ e.ct.enc = e.enc.id
   /\ e.ct.suite = e.suite
@@ -326,7 +328,7 @@ Spec == Init /\ [][Next]_vars /\ WF_vars(Next)
 \* --------------------------------------------------------------- the properties
 Done == pc = "done"
 Target == KeyPool(ck)
-Holds == \E i \in DOMAIN Keys : Keys[i].dec /\ Keys[i].kid = Target.kid /\ Keys[i].cfg = Target.cfg
+Holds == suite \in Suites /\ \E i \in DOMAIN Keys : Keys[i].dec /\ Keys[i].kid = Target.kid /\ Keys[i].cfg = Target.cfg
 Authentic == \E i \in DOMAIN Keys : Keys[i].dec /\ Keys[i].cid = hello.ech.cid /\ hello.ech.suite \in Keys[i].suites /\ OpenOK(Keys[i], hello)
 Committed == [sid |-> sid, exts |-> Expanded(InnerLayout(inm), OuterLayout(onm), run)]
 
